@@ -216,6 +216,8 @@ def _variants(name, nodes, edges, r, n_coord, aromatic):
         other = [e for e in ring_edges if e not in arom]
         co = {r.choice(other)} if other and r.random() < .5 else set()
         yield 'arom', [(a, b, 4 if tuple(sorted((a, b))) in arom else 8 if tuple(sorted((a, b))) in co else 1) for a, b in edges]
+        short = arom - {r.choice(sorted(arom))}      # all bonds of the ring but one aromatic: must NOT be reported as aromatic ring
+        yield 'arom-1', [(a, b, 4 if tuple(sorted((a, b))) in short else 1) for a, b in edges]
 
 
 def _work_graph(item):
@@ -288,8 +290,13 @@ def _work_smiles(item):
     from oracles import o06_gaps as O
     tag, text, ntrials = item
     if tag == 'smiles':
-        m = D.parse(text)
         name = 'smi:' + text
+        try:
+            m = D.parse(text)
+        except Exception as e:
+            # building the domain element failed inside the library (parser / kekule / thiele: properties C03-C05, not C06):
+            # not a C06 verdict; the input is skipped and counted, bounded() crashes (exit 3) if too many are lost
+            return 0, [], [], [], {'skipped:' + name: f'{type(e).__name__}: {e}'}
     else:
         m = _cycle_sdf()[text]
         name = f'cycle.sdf#{text}'
@@ -356,6 +363,19 @@ def _work(item):
 
 
 # ---------------------------------------------------------------------------------------------------------------------------------
+def _selfcheck_gap_oracle(graphs):
+    """the flow-based gap-A oracle must agree with plain path enumeration (harness self-validation: a disagreement is a checker
+    crash, never a violation); returns (graphs compared, graphs inside gap A)"""
+    from oracles import o06_gaps as O
+    n = pos = 0
+    for g in graphs:
+        a, b = O.gap_a(g) is not None, O.gap_a_bruteforce(g) is not None
+        assert a == b, f'gap-A oracles disagree on {sorted(g.edges)}: flow {a}, enumeration {b}'
+        n += 1
+        pos += a
+    return n, pos
+
+
 def bounded(run):
     env.setup()
     import networkx as nx
@@ -363,44 +383,50 @@ def bounded(run):
     from oracles import o06_gen as G
     thorough = run.tier == 'thorough'
     ntr = 5
-    items = []
+    items, dom = [], []
 
-    def add_graph(name, g, n_coord, aromatic=True, trials=ntr):
+    def add_graph(domain, name, g, n_coord, aromatic=True, trials=ntr):
         nodes = sorted(g.nodes)
         items.append(('graph', name, nodes, sorted(tuple(sorted(e)) for e in g.edges), trials, n_coord, aromatic, None))
+        dom.append(domain)
 
     max_nodes = 7 if thorough else 6
     at = D.atlas(max_nodes)
     for g in at:
-        add_graph(g.name, g, 3 if thorough else 2)
+        add_graph('exhaustive', g.name, g, 3 if thorough else 2)
     run.bound(f'exhaustive: every connected graph with <= {max_nodes} atoms and degree <= 4 of the networkx atlas ({len(at)} graphs) as all-carbon '
-              f'molecules: single bonds, {3 if thorough else 2} seeded coordinate-bond variants (first one inside rings), one aromatic-ring variant; '
+              f'molecules: single bonds, {3 if thorough else 2} seeded coordinate-bond variants (first one inside rings), one aromatic-ring variant and one with a single non-aromatic bond in that ring; '
               f'{ntr} labellings each (identity + 4 seeded renumberings with shuffled insertion order)')
+    check_graphs = []
     if thorough:
         g8 = G.eight_node_graphs(3)
         for name, g in g8:
-            add_graph(name, g, 2)
+            add_graph('exhaustive', name, g, 2)
+            check_graphs.append(g)
         run.bound(f'exhaustive: every connected graph with 8 atoms, <= 3 rings, degree <= 4 ({len(g8)} graphs; generator checked against '
-                  f'the known counts 23/89/236/486), same variants, {ntr} labellings each')
+                  f'the known counts 23/89/236/486 before the degree filter), same variants, {ntr} labellings each')
     n_asm = 1500 if thorough else 120
     r = D.rnd('b06:assemblies')
     for i in range(n_asm):
         g, ops = G.ring_assembly(r, 8, 30)
+        if g.number_of_nodes() <= 20 and len(check_graphs) < (900 if thorough else 40):
+            check_graphs.append(g)
         if r.random() < .15:      # disconnected input: a second assembly as another component
             g2, ops2 = G.ring_assembly(r, 3, 12)
             g = G.disjoint([g, g2])
             ops = ops + ['|'] + ops2
-        add_graph(f'asm{i}[' + ' '.join(ops) + ']', g, 1, aromatic=(i % 4 == 0))
+        add_graph('random', f'asm{i}[' + ' '.join(ops) + ']', g, 1, aromatic=(i % 4 == 0))
     n_mac = 200 if thorough else 24
     r = D.rnd('b06:macro')
     for i in range(n_mac):
         g, ops = G.macrocycle(r)
-        add_graph(f'mac{i}[' + ' '.join(ops) + ']', g, 1, aromatic=False, trials=3)
+        add_graph('random', f'mac{i}[' + ' '.join(ops) + ']', g, 1, aromatic=False, trials=3)
     run.bound(f'seeded: {n_asm} fused/spiro/bridged/linked assemblies of 3-8 membered rings (8-30 atoms, 15 % with a second component), '
               f'plain + 1 coordinate variant, {ntr} labellings; {n_mac} macrocycles (12-40) bare / fused / spiro / bridged / two components, 3 labellings')
     n_cor = 1000 if thorough else 100
     for s in D.corpus_sample(n_cor, 'b06:corpus'):
         items.append(('mol', 'smiles', s, 3))
+        dom.append('corpus')
     files = 0
     try:
         mols = _cycle_sdf()
@@ -409,45 +435,80 @@ def bounded(run):
         run.notes['cycle.sdf'] = f'not readable: {type(e).__name__}: {e}'
     for i, m in enumerate(mols):
         items.append(('mol', 'sdf', i, 3))
+        dom.append('cycle.sdf')
         files += 1
     run.bound(f'corpus: seeded sample of {n_cor} SMILES of pach/lipophilicity.csv (kekule+thiele normal form) as parsed + 2 rebuilt renumberings; '
               f'test/cycle.sdf: {files} molecules as read + 2 rebuilt renumberings')
+    items.append(('graph', 'fixed-gapA-18', None, None, 5, 0, False, FIXED_GAP_A))
+    dom.append('fixed')
+    run.bound('fixed: the 18-atom gap-A witness (theta core 3/5/5 inside a fused system) in its failing labelling + 4 seeded renumberings, run every time')
+    nchk, npos = _selfcheck_gap_oracle(check_graphs)
     run.assume('oracle: networkx.minimum_cycle_basis gives a minimum cycle basis; the sorted size vector of every minimum cycle basis is the same',
                'oracle: GF(2) elimination on bond-incidence bit vectors (oracles/cycles.py)',
-               'oracle: networkx bridges / connected_components / biconnected_components on graphs read from the bond table',
-               'connected_components is compared on the graph WITH coordinate bonds (as the code defines it); rings_count, sssr and marks on '
-               'the graph WITHOUT them',
-               'recorded gaps (outside the claimed domain, counted as gap_hits): A = a 2-connected block that is a theta graph whose three '
-               'bridges all have >= 3 bonds; B = a connected part with <= 7 atoms and cyclomatic number > 5; rings_count, '
-               'not_special_connectivity and connected_components are never excused by a gap',
-               'bond.in_ring for non-coordinate bonds must equal "not a bridge": every cycle-space basis covers exactly the non-bridge bonds')
+               'oracle: networkx bridges / connected_components / biconnected_components / local_node_connectivity on graphs read from the bond table',
+               'connected_components is compared on the graph WITH coordinate bonds (as the code defines it: _connected_components(self._bonds)); '
+               'rings_count, not_special_connectivity, sssr and all ring marks on the graph WITHOUT them',
+               'recorded gaps (outside the claimed domain, counted as gap_hits): A = the graph without coordinate bonds contains two atoms joined by '
+               'three internally vertex-disjoint paths with >= 3 bonds each (theta core; exact oracle: <= 2^4 edge deletions + Menger/max-flow, '
+               f'cross-checked against plain path enumeration on {nchk} graphs of this run, {npos} of them inside the gap); B = a connected part '
+               'with <= 7 atoms and cyclomatic number > 5',
+               'inside a gap ONLY minimum total size, GF(2) independence and size-multiset stability are excused (plus the two bridge-oracle mark '
+               'contracts when the reported set is itself dependent); count, simple cycles, marks vs the reported sssr, per-atom views, '
+               'aromatic rings, rings_count, components and "no exception" stay enforced',
+               'bond.in_ring for non-coordinate bonds must equal "not a bridge", atom.in_ring "has a non-bridge bond": a cycle-space basis covers '
+               'exactly the non-bridge bonds')
 
     # heavy items first for a balanced pool
-    order = sorted(range(len(items)), key=lambda i: -(len(items[i][3]) if items[i][0] == 'graph' else 30))
+    order = sorted(range(len(items)), key=lambda i: -(len(items[i][3] or ()) if items[i][0] == 'graph' else 30))
     res = pmap(_work, [items[i] for i in order], chunksize=4)
-    gaps = Counter()
-    hit_graphs = []
+    stats = {d: {'molecules': 0, 'graph_variants_inside_gap': Counter(), 'excused_contract_failures': Counter(), 'graph_variants_with_excused_failures': 0}
+             for d in ('exhaustive', 'random', 'corpus', 'cycle.sdf', 'fixed')}
+    examples = []
+    skipped = []
     shown = Counter()
-    for it, (n, keys, samples, viols, gp) in zip((items[i] for i in order), res):
-        kind = it[1][:3] if not it[1].startswith('G') else 'atlas'
+    for i, (n, keys, samples, viols, gp) in zip(order, res):
+        it, d = items[i], dom[i]
+        st = stats[d]
+        st['molecules'] += n
         sample = None
-        if samples and shown[kind] < 2:
-            shown[kind] += 1
+        if samples and shown[d] < 2:
+            shown[d] += 1
             sample = samples[0]
         run.case(n, sample=sample)
         for k in keys:
             run.case(0, key=k)
         for key, what, wit, nat in viols:
             run.violation(key, what, witness=wit, native=nat)
+        hit = set()
         for k, v in gp.items():
-            if k.startswith('hit-graphs:'):
-                hit_graphs.append(k[11:])
+            if k.startswith('skipped:'):
+                skipped.append((k[8:], v))
+            elif k.startswith('hit-graphs:'):
+                hit.add(k[11:].split(' ')[0])
+                if len(examples) < 12 or d == 'fixed':
+                    examples.append(f'[{d}] ' + k[11:][:300])
+            elif k.startswith('inputs:'):
+                st['graph_variants_inside_gap'][k[7:]] += v
             else:
-                gaps[k] += v
-    run.notes['gap_hits'] = {'contract_failures_excused': {k[5:]: v for k, v in gaps.items() if k.startswith('hits:')},
-                             'inputs_inside_a_gap': {k[7:]: v for k, v in gaps.items() if k.startswith('inputs:')},
-                             'graphs_with_excused_failures': len(hit_graphs), 'examples': sorted(hit_graphs)[:12]}
-    print(f'C06 bounded: gap_hits={len(hit_graphs)} graphs {dict(gaps)}', flush=True)
+                st['excused_contract_failures'][k[5:]] += v
+        st['graph_variants_with_excused_failures'] += len(hit)
+    if skipped:
+        run.notes['skipped_corpus_inputs'] = {'count': len(skipped), 'examples': skipped[:5],
+                                              'why': 'the library raised while parsing / normalising the SMILES (outside C06)'}
+        if len(skipped) > n_cor // 10 and not run.violations:
+            raise RuntimeError(f'{len(skipped)} of {n_cor} corpus molecules could not be built, e.g. {skipped[0]}')
+    total_hits = sum(s['graph_variants_with_excused_failures'] for s in stats.values())
+    fx = stats['fixed']
+    run.notes['gap_hits'] = {
+        'total_graph_variants_with_excused_failures': total_hits,
+        'per_domain': {d: {'molecules_evaluated': s['molecules'], 'graph_variants_inside_gap': dict(s['graph_variants_inside_gap']),
+                           'excused_contract_failures': dict(s['excused_contract_failures']),
+                           'graph_variants_with_excused_failures': s['graph_variants_with_excused_failures']} for d, s in stats.items()},
+        'fixed_18_atom_witness': ('gap A is real on this tree: ' + '; '.join(e[8:] for e in examples if e.startswith('[fixed]')))
+        if fx['graph_variants_with_excused_failures'] else 'the fixed 18-atom gap-A witness satisfied every contract on this tree',
+        'examples': examples[:12]}
+    print(f'C06 bounded: gap_hits={total_hits} ' + ' '.join(
+        f'{d}: inside={sum(s["graph_variants_inside_gap"].values())} hit={s["graph_variants_with_excused_failures"]}' for d, s in stats.items()), flush=True)
 
 
 def replay(rec):
